@@ -26,7 +26,7 @@ Definition table1 : list (string * (list Z -> list Z)) :=
   ("add_i32", f2 add_i32) :: ("add_u32", f2 add_u32) ::
   ("opPlusEq_I", f2 opPlusEq_I) :: ("opPlusEq_u64", f2 opPlusEq_u64) :: ("opPlusEq_i64", f2 opPlusEq_i64) ::
   ("opPlusEq_u32", f2 opPlusEq_u32) :: ("opPlusEq_i32", f2 opPlusEq_i32) ::
-  ("opPlusEq_i32_fixed", f2 opPlusEq_i32_fixed) :: ("opPlusEq_T", f2 opPlusEq_T) ::
+  ("opPlusEq_T", f2 opPlusEq_T) ::
   ("opPlus_I", f2 opPlus_I) :: ("opPlus_u64", f2 opPlus_u64) :: ("opPlus_i64", f2 opPlus_i64) ::
   ("opPlus_u32", f2 opPlus_u32) :: ("opPlus_i32", f2 opPlus_i32) ::
   ("fr_plus_i32", f2 fr_plus_i32) :: ("fr_plus_u32", f2 fr_plus_u32) ::
@@ -35,7 +35,7 @@ Definition table1 : list (string * (list Z -> list Z)) :=
   ("subin_I", f2 subin_I) :: ("subin_i64", f2 subin_i64) :: ("subin_u64", f2 subin_u64) ::
   ("subin_i32", f2 subin_i32) :: ("subin_u32", f2 subin_u32) ::
   ("sub_I", f2 sub_I) :: ("sub_i64", f2 sub_i64) :: ("sub_u64", f2 sub_u64) ::
-  ("sub_i32", f2 sub_i32) :: ("sub_i32_fixed", f2 sub_i32_fixed) :: ("sub_u32", f2 sub_u32) ::
+  ("sub_i32", f2 sub_i32) :: ("sub_u32", f2 sub_u32) ::
   ("opMinusEq_I", f2 opMinusEq_I) :: ("opMinusEq_u64", f2 opMinusEq_u64) :: ("opMinusEq_i64", f2 opMinusEq_i64) ::
   ("opMinusEq_u32", f2 opMinusEq_u32) :: ("opMinusEq_i32", f2 opMinusEq_i32) :: ("opMinusEq_T", f2 opMinusEq_T) ::
   ("opMinus_I", f2 opMinus_I) :: ("opMinus_u64", f2 opMinus_u64) :: ("opMinus_i64", f2 opMinus_i64) ::
